@@ -236,10 +236,28 @@ def step (st : State) (w : List String) : State × String :=
     match parseBool fin with
     | some f => (st, chainRun m1 act f m2)
     | none => (st, "bad-op")
-  | ["share", "run", _delay, ids] =>
+  | ["share", "walk", _hold, ids] =>
+    -- every client of a shared minimised probe gets its own copy: own id, own question
+    let idl := (ids.splitOn ",").filterMap String.toNat?
+    let res := shareAll { addr := 1, id := 0, body := 7 } (idl.map fun i => (i, true)) 2
+    (st, s!"ids={",".intercalate (res.map fun m => toString m.id)} ownq=t")
+  | ["doq", "conn", order, behs] =>
+    -- goroutine i serves stream i; handlers complete in the scripted order
+    let bl := behs.splitOn ","
+    let ol := (order.splitOn ",").filterMap String.toNat?
+    let evs : List DoqEvent := (List.range bl.length).map (fun i => DoqEvent.accept (i + 1)) ++
+      ol.map fun k => DoqEvent.complete k (if bl.getD k "" == "nr" then none else some [0, 0, UInt8.ofNat k])
+    let c := ({} : DoqConn).run evs
+    let parts := (List.range bl.length).map fun i =>
+      let fr := c.out.filter fun p => p.1 == i + 1
+      let own := fr.length == 1 && fr.all fun p => p.2 == doqFrame [0, 0, UInt8.ofNat i]
+      s!"s{i}={fr.length}:{boolStr own}"
+    (st, " ".intercalate parts)
+  | "doq" :: _ => (st, "unmodelled")
+  | ["share", "run", _delay, ids, owned] =>
     let idl := (ids.splitOn ",").filterMap String.toNat?
     let leader : Msg := { addr := 1, id := 0, body := 7 }
-    let res := shareAll leader idl 2
+    let res := shareAll leader (idl.map fun i => (i, owned == "t")) 2
     let addrs := leader.addr :: res.map (·.addr)
     let alias := addrs.length != addrs.eraseDups.length
     (st, s!"ids={",".intercalate (res.map fun m => toString m.id)} alias={boolStr alias} errs=0")
